@@ -275,3 +275,7 @@ impl<'a, T: DictionaryAccess> ExactSizeIterator for MorphemeIter<'a, T> {
         self.size_hint().0
     }
 }
+
+// verification hook: harness text lives outside the repository (see MANIFEST.hooks)
+#[cfg(any(kani, sudachi_verif))]
+include!(concat!(env!("SUDACHI_VERIF_DIR"), "/analysis__mlist.rs"));
